@@ -141,15 +141,21 @@ Theorem nesting_depth : forall nested : nat -> nat -> bool,
   (forall a, nested a a = false) ->
   (forall a b c, nested a b = true -> nested b c = true -> nested a c = true) ->
   (forall a b c, nested a c = true -> nested b c = true -> a = b \/ nested a b = true \/ nested b a = true) ->
-  forall ids, NoDup ids -> nesting_result nested ids (init_nested nested ids).
+  forall stored ids, NoDup ids -> nesting_result nested ids (init_nested nested stored ids).
 Proof. exact C07_Nest.nesting_depth. Qed.
 Print Assumptions nesting_depth.
+
+(** [stored l] is the depth field input loop l carries from an earlier polygon or from Decode *)
+Theorem nesting_depth_ignores_stale_depths : forall (nested : nat -> nat -> bool) (stored stored' : nat -> nat) ids,
+  init_nested nested stored ids = init_nested nested stored' ids.
+Proof. exact C07_Nest.nesting_ignores_stale_depths. Qed.
+Print Assumptions nesting_depth_ignores_stale_depths.
 
 Theorem hole_iff_odd_number_of_enclosing_loops : forall nested : nat -> nat -> bool,
   (forall a, nested a a = false) ->
   (forall a b c, nested a b = true -> nested b c = true -> nested a c = true) ->
   (forall a b c, nested a c = true -> nested b c = true -> a = b \/ nested a b = true \/ nested b a = true) ->
-  forall ids l d, NoDup ids -> In (l, d) (init_nested nested ids) ->
+  forall stored ids l d, NoDup ids -> In (l, d) (init_nested nested stored ids) ->
     Nat.odd d = Nat.odd (enclosing nested ids l).
 Proof. exact C07_Nest.hole_parity. Qed.
 Print Assumptions hole_iff_odd_number_of_enclosing_loops.
